@@ -35,6 +35,28 @@ CLAIMS["C17"] = dict(
     technique="static analysis: schema-from-AST derivation + structural identity with the published JSON files",
     design="DESIGN.md section 5, C17")
 
+CLAIMS["C02"] = dict(
+    text="Structural necessary conditions of a lossless round trip, decided for every code path of the codec: (R1) the symbolic "
+         "composition decoder∘encoder is the identity on every init-field of all operation, type, parameter, argument and value "
+         "classes; (R2) no one-shot iterator feeds two consumers; (R3) every node index written by Hugr._to_serial is a position in "
+         "the emitted node list and metadata is aligned with it; (R4) the loader has no path that skips a node or an edge; (R5) "
+         "order-port offsets are encoded on both endpoints and decoded by an inverse built on the same helper; (R6/R7) entry points "
+         "and the load loop restore op, parent and positional metadata. Equality of runtime documents is not executed.",
+    note="Trusted: CPython ast; pydantic dump/validate faithfulness for Any payloads. Not decided: fixed-point equality of concrete "
+         "JSON documents, float/JSON value formatting.",
+    technique="static analysis: symbolic codec composition over AST normal forms + index-space taint + CFG must-pass-through",
+    design="DESIGN.md section 5, C02")
+CLAIMS["C03"] = dict(
+    text="Code-shape conditions for schema conformance and index sanity of every emitted document: emitters return only the dump "
+         "of a validated model (with C17: models ≡ published schema); one index space; root first and own parent; orders that need "
+         "parents first are derived from the hierarchy because indices are reused; the order-port offset is computed from the "
+         "operation's signature plus static input (owners cross-checked against port_kind arms); builders wire static edges to "
+         "the static port.",
+    note="Trusted: pydantic emits a document its own schema accepts; C17 for models ≡ schema. Not decided: validation of concrete "
+         "documents with jsonschema (a runtime check).",
+    technique="static analysis: emitter shape rules, index-space taint, contradiction rule (index reuse vs index order), table agreement",
+    design="DESIGN.md section 5, C03")
+
 NOT_APPLICABLE_REASON: dict[str, str] = {}
 
 
